@@ -25,12 +25,20 @@ MODULES = [
         dict(name='R-byval-handle:read_from', pat='pub(crate) fn read_from<R: Read + Seek>(mut reader: R)', rep='pub(crate) fn read_from<R: Read + Seek>(reader: &mut R)'),
         dict(name='R-byval-handle:write_into', pat='pub(crate) fn write_into<W: Write>(&self, mut writer: W)', rep='pub(crate) fn write_into<W: Write>(&self, writer: &mut W)'),
     ]),
+    dict(name='writer', file='writer.rs', header=HDR_IO, rewrites=[
+        dict(name='R-path:byteorder', pat='use byteorder::', rep='use crate::byteorder::'),
+        dict(name='R-mutself', kind='mutself', fn='into_inner', count=1),
+        dict(name='R-byval-handle:cawb', pat='fn compress_and_write_block<W: io::Write>(\n    mut writer: W,', rep='fn compress_and_write_block<W: io::Write>(\n    writer: &mut W,'),
+        dict(name='R-bytes:u64', kind='re', pat=r'\b(offset|index_block_offset)\.to_(be|le)_bytes\(\)', rep=r'crate::vstubs::u64_to_\2_bytes(\1)', count=4),
+        dict(name='R-drop:explicit', pat='    let buffer = block_writer.finish();\n', rep='    let mut buffer_bb = block_writer.finish();\n    let buffer = &buffer_bb;\n'),
+    ]),
     dict(name='varint', file='varint.rs', header=HDR, rewrites=[]),
     dict(name='block_writer', file='block_writer.rs', header=HDR, rewrites=[
         dict(name='R-assert-diverge', kind='assert_diverge', count='+'),
         dict(name='R-hoist:extend-offsets', pat='self.buffer.extend(self.index_offsets.iter().copied().flat_map(u64::to_be_bytes));',
              rep='crate::vstubs::extend_be64s(&mut self.buffer, &self.index_offsets);'),
         dict(name='R-bytes:u32', kind='re', pat=r'\bindex_offsets_count\.to_(be|le)_bytes\(\)', rep=r'crate::vstubs::u32_to_\1_bytes(index_offsets_count)'),
+        dict(name='R-derive:Clone', pat='#[derive(Clone)]\npub struct BlockWriter {', rep='pub struct BlockWriter {'),
         dict(name='R-exec-const', pat='const DEFAULT_INDEX_KEY_INTERVAL: NonZeroUsize =', rep='exec const DEFAULT_INDEX_KEY_INTERVAL: NonZeroUsize ='),
         dict(name='R-pub-field', pat="    block_builder: &'a mut BlockWriter,", rep="    pub block_builder: &'a mut BlockWriter,"),
         dict(name='R-drop', pat="impl Drop for BlockBuffer<'_> {\n    fn drop(&mut self) {", rep="impl BlockBuffer<'_> {\n    pub fn verif_drop(&mut self) {"),
